@@ -26,6 +26,27 @@ def build_impl_consistent(chk):
     return vlib.build_impl(chk.id.lower(), os.path.join(vlib.VERIF, 'harness', chk.harness), **chk.impl_kwargs)
 
 
+def impl_faults(chk, ctx, cases, tag='oracle'):
+    """The property's own oracle, evaluated on the implementation alone: none of these cases may end in a sanitizer
+    report, a signal or a timeout, whatever the model says (the model takes the table widths from the source tree,
+    so for a source whose capacities wrap it predicts the overflow too - that must still be a failing input)."""
+    import os
+    import vlib
+    work = os.path.join(vlib.BUILD, 'work', chk.id.lower())
+    os.makedirs(work, exist_ok=True)
+    path = os.path.join(work, 'cases-%s.txt' % tag)
+    with open(path, 'w') as f:
+        for c in cases:
+            f.write(c + '\n')
+    outs, details = vlib.run_cases(ctx['impl_exe'], path, len(cases), timeout_per_run=chk.case_timeout)
+    bad = []
+    for c, o in zip(cases, outs):
+        if o is None or o.startswith('FAULT') or o.startswith('HARNESS-ERROR'):
+            bad.append(('A', c, 'the implementation alone fails the property: %s' % o))
+    ctx['cov']['oracle_cases_impl_only'] = len(cases)
+    return sorted(bad, key=lambda x: len(x[1]))[:5]
+
+
 NAMES = [b'foo', b'bar', b'Baz', b'q', b'main', b'x1']
 TEXTCH = b'abcdefghijklmnopqrstuvwxyzABCDEFGHIJKLMNOPQRSTUVWXYZ0123456789=:,.-_/+@!*()[]{}|;^&?#<>'
 WS = [b'', b'', b' ', b'  ', b'\t', b' \t ', b'\x0b', b'\r']
